@@ -269,10 +269,12 @@ struct VT<C: Col> {
 }
 impl<C: Col> VT<C> {
     /// slice of exactly the length `buffer()` reports; None if the crate then rejects it
-    fn make(w: u32, h: u32, bwr: bool) -> Option<Box<dyn Tgt>> {
+    /// `slack` further bytes of backing storage follow the part `buffer()` exposes (VarDisplay::new accepts a longer
+    /// slice): they belong to the caller and must never change
+    fn make(w: u32, h: u32, bwr: bool, slack: usize) -> Option<Box<dyn Tgt>> {
         let mut big = vec![0u8; (doc_req(C::CT, w as u64, h as u64) * 2 + 64) as usize];
         let len = VarDisplay::<C>::new(w, h, &mut big, bwr).ok()?.buffer().len();
-        let mut data = vec![0u8; len];
+        let mut data = vec![0u8; len + slack];
         VarDisplay::<C>::new(w, h, &mut data, bwr).ok()?;
         Some(Box::new(VT::<C> { w, h, bwr, data, _c: PhantomData }))
     }
@@ -351,17 +353,18 @@ fn make_alias(name: &str) -> Option<Box<dyn Tgt>> {
     })
 }
 
-/// `alias:<name>` | `var:<ct>:<w>:<h>:<bwr>`
+/// `alias:<name>` | `var:<ct>:<w>:<h>:<bwr>[:<slack>]`
 fn make_target(spec: &str) -> Option<Box<dyn Tgt>> {
     let p: Vec<&str> = spec.split(':').collect();
     match p[0] {
         "alias" => make_alias(p[1]),
         "var" => {
             let (w, h, bwr): (u32, u32, bool) = (p[2].parse().unwrap(), p[3].parse().unwrap(), p[4] == "1");
+            let slack: usize = if p.len() > 5 { p[5].parse().unwrap() } else { 0 };
             match p[1] {
-                "color" => VT::<Color>::make(w, h, bwr),
-                "tri" => VT::<TriColor>::make(w, h, bwr),
-                "oct" => VT::<OctColor>::make(w, h, bwr),
+                "color" => VT::<Color>::make(w, h, bwr, slack),
+                "tri" => VT::<TriColor>::make(w, h, bwr, slack),
+                "oct" => VT::<OctColor>::make(w, h, bwr, slack),
                 _ => panic!("ct {}", p[1]),
             }
         }
